@@ -1,4 +1,4 @@
-"""C20 - a digest depends only on the algorithm and the bytes (specs/io/Hasher.tla)."""
+"""C20 - a digest depends only on the algorithm and the bytes (specs/io/Hasher.tla, FileDigest.tla)."""
 import os
 
 import vlib
@@ -29,6 +29,38 @@ def run(chk, scratch):
     chk.add_tlc("Hasher with a copy that outlives a cancelled call (must violate DigestIsContent)", r)
     if r.violated != "DigestIsContent":
         raise vlib.Inconclusive("sensitivity self-test failed: Hasher_async.cfg did not violate DigestIsContent")
+    # the file side: histories of one path (same-length contents, modification time put back, removal) hashed with FS.FileHash
+    rf = vlib.run_tlc(scratch, [SPEC], "FileDigest", "FileDigest_6.cfg" if thorough else "FileDigest.cfg", workers=1, timeout=900, deadlock=False, fast=True,
+                      keep=(20000 if thorough else 3000))
+    vlib.tlc_must_pass(rf, "FileDigest")
+    if rf.violated:
+        raise vlib.Inconclusive("FileDigest.tla violates %s: the specification is wrong" % rf.violated)
+    chk.add_tlc("FileDigest: histories of one path (write same/other length, time kept or not, remove, hash)", rf)
+    rm = vlib.run_tlc(scratch, [SPEC], "FileDigest", "FileDigest_memo.cfg", workers=2, timeout=300, deadlock=False, fast=True, parse_behaviours=False)
+    vlib.tlc_must_pass(rm, "FileDigest_memo")
+    chk.add_tlc("FileDigest with digests remembered per (size, modification time) (must violate DigestIsOfBytes)", rm)
+    if rm.violated != "DigestIsOfBytes":
+        raise vlib.Inconclusive("sensitivity self-test failed: FileDigest_memo.cfg reported %s" % rm.violated)
+    import random
+    from props.c04 import judge
+    fd = rf.behaviours
+    random.Random(chk.seed).shuffle(fd)
+    fd = fd[:(6000 if thorough else 400)]
+    inp = os.path.join(scratch, "c20-fd.ndjson")
+    vlib.write_ndjson(inp, fd)
+    ftr = os.path.join(scratch, "c20-fd-trace.ndjson")
+    p = vlib.run_vh(vh, ["c20", "filedigest", "--in", inp, "--out", ftr, "--dir", scratch, "--seed", chk.seed], timeout=1800)
+    if p.returncode != 0:
+        raise vlib.Inconclusive("c20 filedigest driver failed: " + (p.stderr or "")[-1500:])
+    evf = judge(chk, scratch, ftr, "file histories hashed with FS.FileHash", spec="FileDigestTrace", spec_dir=SPEC,
+                describe=lambda e: "%s backend, %s: %s -> %s %s" % (e["backend"], e["algo"], [(o["op"], o["x"], "time kept" if o["keep"] else "") for o in e["ops"]],
+                                                                    [(h["step"], h["content"], "ok" if h["same"] else ("STALE" if h["stale"] else "WRONG"), h["err"]) for h in e["hashes"]], e["problem"]))
+    bad = [e for e in evf if e["problem"]]
+    if len(bad) > len(evf) // 10:
+        raise vlib.Inconclusive("%d of %d file histories could not be set up: %s" % (len(bad), len(evf), bad[0]["problem"]))
+    chk.nontrivial += len(evf) - len(bad)
+    chk.cov["file_histories_replayed"] = len(evf)
+    chk.cov["file_histories_not_set_up"] = len(bad)
     behs = common.emit_behaviours(chk, scratch, SPEC, "Hasher", "Hasher_emit.cfg", "emit exhaustive (<=2 chunks, 3 calcs)",
                                   workers=4, limit=(12000 if thorough else 1500), seed=chk.seed)
     behs += common.emit_behaviours(chk, scratch, SPEC, "Hasher", "Hasher_emit_sim.cfg", "emit simulated (<=4 chunks, 6 calcs)",
